@@ -115,8 +115,13 @@ def genElemMaps (pb : List PbField) (version : Nat) : G (List ElemMap) := do
   let mut usedExisting := 0
   for i in [0:n] do
     let pp ← if version = 10 then chance 1 2 else pure false
-    let pen ← if pp then pick [9, 2636, 29305] else pure 0
-    let type := (if pp then 100 else 400) + i
+    -- enterprise number 0 with the enterprise bit is not the IANA registry: its own key
+    let pen ← if pp then pick [0, 0, 9, 2636, 29305] else pure 0
+    -- an enterprise statement may use the element id of an IANA statement of the same file (different keys)
+    let shared ← chance 1 2
+    let earlier := (out.filter fun m => !m.penProvided).map (·.type)
+    let cand ← if pp ∧ shared ∧ !earlier.isEmpty then pick earlier else pure (100 + i)
+    let type := if pp then (if out.any (fun m => m.penProvided ∧ m.pen = pen ∧ m.type = cand) then 100 + i else cand) else 400 + i
     let useCustom ← chance 2 3
     let dest ← if useCustom ∧ !pb.isEmpty then (do pure (customDest (← pick pb))) else do
       usedExisting := usedExisting + 1
@@ -149,9 +154,13 @@ def genElemRound (i : Nat) : G (List String) := do
       let w ← if isNumeric m.dest then range 1 (numericMax m.dest) else range 1 20
       fields := fields ++ [(⟨m.type, w, if m.penProvided then some m.pen else none⟩, some m)]
   for m in maps do
-    if version = 10 ∧ (← chance 1 3) then
+    if version = 10 ∧ (← chance 1 2) then
       -- same element id under another enterprise number (or none): not matched
-      fields := fields ++ [(⟨m.type, ← range 1 8, if m.penProvided then some (m.pen + 1) else some 77⟩, none)]
+      let coin ← chance 2 3
+      let other : Option Nat := if m.penProvided then some (m.pen + 1) else (if coin then some 0 else some 77)
+      -- … unless another statement of the file has exactly that key
+      if !(maps.any fun m' => m'.penProvided ∧ some m'.pen = other ∧ m'.type = m.type) then
+        fields := fields ++ [(⟨m.type, ← range 1 8, other⟩, none)]
   -- now and then the template lists a mapped element twice: the destination is written twice in one flow
   if (← chance 1 3) then
     match fields.head? with
